@@ -238,3 +238,65 @@ pub async fn check_audit<TC: ModelCfg, R: Reader<TC>>(r: &R, s: u64, e: u64, pub
         }
     }
 }
+
+/// The full reader suite: epoch hash, lookups, histories, audits — everything must verify to
+/// `model` (the state as of `epoch`) and be served at exactly that epoch.
+/// `absent`: labels that must not be served (e.g. first published in an unfinished epoch).
+pub async fn reader_suite<TC: ModelCfg, R: Reader<TC>>(
+    r: &R,
+    model: &DirModel,
+    published: &[D32],
+    absent: &[Vec<u8>],
+    light: bool,
+) -> Vec<Bad> {
+    let mut bads = vec![];
+    let e = model.epoch;
+    match r.r_epoch_hash().await {
+        Ok(eh) => {
+            if eh.0 != e || eh.1 != published[e as usize] {
+                bads.push(bad("epoch_hash_wrong", json!({"got": [eh.0, hex::encode(eh.1)], "expected_epoch": e, "expected_hash": hex::encode(published[e as usize])})));
+                return bads; // everything else would be noise
+            }
+        }
+        Err(err) => {
+            bads.push(bad("epoch_hash_failed", json!({"error": format!("{err:?}")})));
+            return bads;
+        }
+    }
+    for l in model.users.keys() {
+        if let Err(b) = check_lookup::<TC, _>(r, l, model, published, Some(e)).await {
+            bads.push(b);
+        }
+        let params: &[HistoryParams] = if light {
+            &[HistoryParams::Complete, HistoryParams::MostRecent(1)]
+        } else {
+            &[HistoryParams::Complete, HistoryParams::MostRecent(1), HistoryParams::MostRecent(2)]
+        };
+        for p in params {
+            if let Err(b) = check_history::<TC, _>(r, l, *p, model, published, Some(e)).await {
+                bads.push(b);
+            }
+        }
+    }
+    for l in absent {
+        if model.users.contains_key(l) {
+            continue;
+        }
+        if let Ok((p, eh)) = r.r_lookup(AkdLabel(l.clone())).await {
+            let v = verify_lookup::<TC>(l, p, &eh);
+            bads.push(bad("unfinished_or_unpublished_label_served", json!({"label": show_bytes(l), "epoch": eh.0, "verifies": v.is_ok()})));
+        }
+        if let Ok((_, eh)) = r.r_history(&AkdLabel(l.clone()), HistoryParams::Complete).await {
+            bads.push(bad("unfinished_or_unpublished_label_history_served", json!({"label": show_bytes(l), "epoch": eh.0})));
+        }
+    }
+    let lo = if light { e.saturating_sub(2) } else { 0 };
+    for s in lo..e {
+        for t in s + 1..=e {
+            if let Err(b) = check_audit::<TC, _>(r, s, t, published).await {
+                bads.push(b);
+            }
+        }
+    }
+    bads
+}
